@@ -19,7 +19,7 @@ LEB(n) == IF n < 128 THEN <<n>> ELSE <<(n % 128) + 128>> \o LEB(n \div 128)
 \* <<value, next position>> or <<-1, 0>> when the header is truncated
 RECURSIVE ReadLEB(_, _, _, _)
 ReadLEB(bs, pos, shift, acc) ==
-  IF pos > Len(bs) \/ shift > 21 THEN <<-1, 0>>     \* truncated, or longer than any run count a page can hold (4 bytes)
+  IF pos > Len(bs) \/ shift > 28 THEN <<-1, 0>>     \* truncated, or longer than the 5 bytes a 32-bit header can take (writers that back-patch a fixed slot emit those)
   ELSE LET b == bs[pos] IN
        IF b < 128 THEN <<acc + b * Pow2(shift), pos + 1>>
        ELSE ReadLEB(bs, pos + 1, shift + 7, acc + (b - 128) * Pow2(shift))
